@@ -64,7 +64,7 @@ impl ControllerNumber {
     /// Returns whether this controller number is intended to be used to send Channel Mode
     /// messages.
     pub fn is_channel_mode_message_controller_number(&self) -> bool {
-        *self >= controller_numbers::RESET_ALL_CONTROLLERS
+        *self >= controller_numbers::ALL_SOUND_OFF
     }
 }
 
